@@ -82,12 +82,19 @@ def Level.classifies (l : Level) (w : Word) : Bool :=
 /-- empty ⇔ every prompt of the grammar is found by the channel's joined pattern -/
 def detOb (t : Table) (m : Mode) : RE := .and m.grammar (.not t.detect)
 
-/-- for the `k`-th level of the table:
-    in the share group : empty ⇔ every prompt of the grammar is classified by the level;
-    outside            : empty ⇔ no prompt of the grammar is classified by the level -/
-def levelOb (t : Table) (m : Mode) (k : Nat) : RE :=
-  let l := t.level k
-  if m.group.contains l.name then .and m.grammar (.not l.classified) else .and m.grammar l.classified
+def Table.others (t : Table) (names : List String) : List Level :=
+  t.levels.filter (fun l => !names.contains l.name)
+
+def ands : List RE → RE
+  | [] => .not .emp
+  | [a] => a
+  | a :: as => .and a (ands as)
+
+/-- empty ⇔ every prompt of the grammar is classified by every level of the share group -/
+def ownOb (t : Table) (m : Mode) : RE := .and m.grammar (.not (ands ((t.pick m.group).map Level.classified)))
+
+/-- empty ⇔ no prompt of the grammar is classified by a level outside the share group -/
+def forOb (t : Table) (m : Mode) : RE := .and m.grammar (RE.alts ((t.others m.group).map Level.classified))
 
 /-- every level name of the share group exists in the table (otherwise inclusion would be vacuous) -/
 def groupPresent (t : Table) (m : Mode) : Bool :=
